@@ -281,9 +281,18 @@ def canonIter (F : Facts) (f : Step → Loc → List V → V) : Nat → (Loc →
 
 end canon
 
-/-- the launching thread joins both tasks before the callback and does nothing unknown -/
+/-- position (in the program of the launching thread) of the later of the two joins: from there on no task is
+running -/
+def lastJoin (F : Facts) : Nat :=
+  max ((mainProg F).idxOf (.get .X)) ((mainProg F).idxOf (.get .Y))
+
+/-- the launching thread joins both tasks before the callback and does nothing unknown while a task may be
+running, i.e. before the later of the two joins.  Statements after both joins (e.g. the finiteness checks of
+the two results in `runLB`) stay in the program as `other` steps - modelled as reading and writing every
+variable - and are covered by `no_conflicting_access` like every other step. -/
 def getsPrecedeCallback (F : Facts) : Bool :=
-  (mainProg F).contains (.get .X) && (mainProg F).contains (.get .Y) && !(mainProg F).contains .other &&
+  (mainProg F).contains (.get .X) && (mainProg F).contains (.get .Y) &&
+    !((mainProg F).take (lastJoin F)).contains .other &&
     decide ((mainProg F).idxOf (.get .X) < (mainProg F).idxOf .callback) &&
     decide ((mainProg F).idxOf (.get .Y) < (mainProg F).idxOf .callback)
 
